@@ -595,14 +595,17 @@ Proof.
   - intros a b. induction a as [|l a IH]; cbn [app read_tsv].
     + rewrite rd_app_nil_l. reflexivity.
     + rewrite IH, rd_app_assoc. reflexivity.
-  - intros l l' H. cbn [read_tsv]. unfold tsv_line. rewrite H. reflexivity.
+  - intros l l' H. cbn [read_tsv]. unfold tsv_line, tsv_skipped. rewrite H. reflexivity.
 Qed.
 
 (** a blank line is a discarded line: counted, no triple (this is where the
-    repaired [log_msg] call enters: [c08_tsv_discard_log_fits]) *)
+    repaired [log_msg] call enters: [c08_tsv_discard_log_fits]); once the
+    reader skips blank lines and comment lines ([c08_tsv_skips_comment_lines])
+    it is not even counted *)
 Theorem read_tsv_blank_silent pyfloat : blank_silent (read_tsv pyfloat).
 Proof.
-  intros l H. exists 1. cbn [read_tsv]. unfold tsv_line. rewrite H. reflexivity.
+  intros l H. exists (if c08_tsv_skips_comment_lines then 0 else 1)%nat. cbn [read_tsv].
+  unfold tsv_line, tsv_skipped. rewrite H. destruct c08_tsv_skips_comment_lines; reflexivity.
 Qed.
 
 (** rdflib literals: the element type is the N-Triples one, whatever the lexical form *)
@@ -1149,7 +1152,9 @@ Section TsvTheorem.
   Lemma tsv_line_ok t : triple_ok t = true -> tsv_line pyfloat (tsv_line_of t) = inl (TYield (m_of t)).
   Proof.
     intros H. destruct (triple_ok_parts t H) as (Hs & Hp & Ho).
-    unfold tsv_line. rewrite (strip_tsv_line t H), (split_tsv_line t H).
+    assert (K : tsv_skipped (tsv_line_of t) = false).
+    { unfold tsv_skipped. rewrite (strip_tsv_line t H). unfold tsv_line_of. destruct (a_s t); cbn; first [reflexivity | apply andb_false_r]. }
+    unfold tsv_line. rewrite K, (strip_tsv_line t H), (split_tsv_line t H).
     rewrite tune_token_node, tune_prop_iri, (tune_token_obj pyfloat _ Ho). reflexivity.
   Qed.
 
